@@ -275,6 +275,8 @@ def collect(run, pkg, p, recs, byid, stats, libword):
         elif t == "pviol":
             s = byid.get(r["sid"])
             sig = {"kind": r["kind"]}
+            if r.get("class"):
+                sig["class"] = r["class"]
             kinds = run.notes.setdefault("violating_observations_by_kind", {})
             kinds[r["kind"]] = kinds.get(r["kind"], 0) + 1
             if kinds[r["kind"]] > 3:      # three replayable witnesses per kind are enough; the rest is counted
@@ -327,7 +329,7 @@ def optics_configs(tier, prop):
 def check_optics(run, shapes=None):
     prop = run.pid
     thorough = run.tier == "thorough"
-    inv = ["C01_LensExact", "Emit"] if prop == "C01" else ["C02_Sound", "C02_SoundRepaired", "Emit"]
+    inv = ["C01_LensExact", "Emit"] if prop == "C01" else ["C02_Sound", "C02_SoundRepaired", "C02_Reflector", "Emit"]
     if shapes is None:
         shapes = enumerate_shapes(run, "OpticsGen", optics_configs(run.tier, prop), inv, prop, extra_jobs=[memory_model(run)])
         shapes = sample_shapes(shapes, 3000 if thorough else 300, run.seed)
@@ -363,7 +365,7 @@ def check_optics(run, shapes=None):
         run.traces += stats.get("scripts", 0)
     else:
         for k in ("derive-panic", "derive-ptr", "derive-lens", "ptr-class-accepted", "ptr-class-panicked", "through-pointer-lenses",
-                  "through-pointer-coincident", "foreign-calls", "container-derivations"):
+                  "through-pointer-coincident", "foreign-calls", "foreign-classes-tried", "container-derivations"):
             run.notes[k.replace("-", "_")] = stats.get(k, 0)
         run.traces += stats.get("foreign-calls", 0)
     # I level: which variant of the derivation does the tree follow?
@@ -389,6 +391,7 @@ MEM_CFG = """CONSTANTS
   TypePrefix = ""
 SPECIFICATION MSpec
 INVARIANT MemExact
+INVARIANT OwnTypeOnly
 INVARIANT NoTornCell
 CHECK_DEADLOCK FALSE
 """
